@@ -3,9 +3,9 @@
 //
 // What runs is the real executor code: executorcmd.NewClient (real gRPC client over loopback) ->
 // RpcClient.doTransition (reply acceptance rule) -> transitioner.NewTransitioner(FAIRMQ|DIRECT)
-// -> Commit/doConfigure/doReset, entered the way ControllableTask.Transition enters it: a
-// MesosCommand_Transition JSON document unmarshalled into an ExecutorCommand_Transition, Commit(),
-// PrepareResponse(), and the "state"/"error" fields of the marshalled response.
+// -> Commit/doConfigure/doReset, entered through the real executable.ControllableTask (task.go):
+// a MesosCommand_Transition JSON document handed to UnmarshalTransition, then Transition(), and the
+// "state"/"error" fields of the marshalled response - what the executor sends to the core.
 // The peer is a simulated OCC device (an in-process pb.OccServer): the FairMQ (or OCC direct)
 // state graph plus an outcome script that says, for each request actually issued, whether the
 // device performs it, refuses it in place, goes to ERROR, or whether the request / the reply is
@@ -36,6 +36,7 @@ import (
 	"github.com/AliceO2Group/Control/common/controlmode"
 	"github.com/AliceO2Group/Control/common/utils/uid"
 	"github.com/AliceO2Group/Control/core/controlcommands"
+	"github.com/AliceO2Group/Control/executor/executable"
 	"github.com/AliceO2Group/Control/executor/executorcmd"
 	"github.com/AliceO2Group/Control/executor/executorcmd/transitioner"
 	pb "github.com/AliceO2Group/Control/executor/protos"
@@ -239,6 +240,7 @@ type stack struct {
 	srv     *occSrv
 	clients map[int]*executorcmd.RpcClient
 	trans   map[int]transitioner.Transitioner // wrapped: records EventInfo, then real doTransition
+	tasks   map[int]executable.Task           // real ControllableTask (executable.NewTask) over trans[mode]
 	seen    []transitioner.EventInfo
 	target  controlcommands.MesosCommandTarget
 	envId   uid.ID
@@ -251,7 +253,7 @@ func newStack() *stack {
 		fmt.Fprintln(os.Stderr, "h16: cannot listen on loopback:", err)
 		os.Exit(2)
 	}
-	s := &stack{srv: &occSrv{}, clients: map[int]*executorcmd.RpcClient{}, trans: map[int]transitioner.Transitioner{}}
+	s := &stack{srv: &occSrv{}, clients: map[int]*executorcmd.RpcClient{}, trans: map[int]transitioner.Transitioner{}, tasks: map[int]executable.Task{}}
 	g := grpc.NewServer()
 	pb.RegisterOccServer(g, s.srv)
 	go func() { _ = g.Serve(lis) }()
@@ -292,11 +294,12 @@ func newStack() *stack {
 			s.seen = append(s.seen, ei)
 			return inner(ei)
 		})
+		s.tasks[m] = newControllableTask(cm, &executorcmd.RpcClient{OccClient: c.OccClient, Transitioner: s.trans[m], Log: c.Log})
 	}
 	s.target = controlcommands.MesosCommandTarget{
 		AgentId:    mesos.AgentID{Value: "agent-1"},
 		ExecutorId: mesos.ExecutorID{Value: "executor-1"},
-		TaskId:     mesos.TaskID{Value: "verif-task"},
+		TaskId:     mesos.TaskID{Value: verifTaskId},
 	}
 	s.envId = uid.New()
 	return s
@@ -334,13 +337,12 @@ func (s *stack) commit(mode int, evt, src, dst string, nargs int) (string, bool,
 	if err != nil {
 		panic(err)
 	}
-	cmd := new(executorcmd.ExecutorCommand_Transition)
-	cmd.Transitioner = s.trans[mode]
-	if err := json.Unmarshal(data, cmd); err != nil {
+	// what the MesosCommand_Transition arm of executor/handlers.go does with the message
+	cmd, err := s.tasks[mode].UnmarshalTransition(data)
+	if err != nil {
 		panic(err)
 	}
-	newState, terr := cmd.Commit()
-	resp := cmd.PrepareResponse(terr, newState, s.target.TaskId.Value)
+	resp := s.tasks[mode].Transition(cmd)
 	out, err := json.Marshal(resp)
 	if err != nil {
 		panic(err)
@@ -353,8 +355,8 @@ func (s *stack) commit(mode int, evt, src, dst string, nargs int) (string, bool,
 		panic(err)
 	}
 	note := ""
-	if back.State != newState || (back.Error != "") != (terr != nil) {
-		note = "response document disagrees with Commit's return values"
+	if resp == nil || back.State != resp.CurrentState || (back.Error != "") != (resp.Err() != nil) {
+		note = "response document disagrees with the response object"
 	}
 	return back.State, back.Error != "", note
 }
@@ -606,8 +608,9 @@ func genTable(s *stack, path string) {
 	}
 	var out strings.Builder
 	out.WriteString("(* regenerated on every run by `h16 -gen`: exhaustive enumeration, on the running Go code\n" +
-		"   (executorcmd.NewClient -> RpcClient.doTransition -> transitioner.Commit against the simulated\n" +
-		"   device), of every (mode, event, source state, strictness) and, as a prefix tree, every outcome\n" +
+		"   (ControllableTask.UnmarshalTransition/Transition -> ExecutorCommand_Transition.Commit ->\n" +
+		"   transitioner.Commit -> RpcClient.doTransition against the simulated device; observed: the\n" +
+		"   state/error of the marshalled response), of every (mode, event, source state, strictness) and, as a prefix tree, every outcome\n" +
 		"   script: one outcome per request that is actually issued.  Do not edit. *)\n")
 	out.WriteString("From Verif Require Import Common FairMQ.\nOpen Scope N_scope.\n")
 	out.WriteString(p.defs())
@@ -717,6 +720,14 @@ func corpus() []runIn {
 		// regression case of the repaired finding C16-c: GO_ERROR used to be answered with success and
 		// the source state, now with an error
 		{Mode: modeFairMQ, Strict: false, Evt: "GO_ERROR", Src: "RUNNING", Dst: "ERROR", NArgs: 1, Dev0: "RUNNING", Script: []int{}},
+		// (unknown state, error) outcomes of EXIT must reach the core as they are (seed C16-6: the layer
+		// above the transitioners turned them into DONE + success): END lost on the way to a FairMQ device,
+		{Mode: modeFairMQ, Strict: false, Evt: "EXIT", Src: "STANDBY", Dst: "DONE", NArgs: 1, Dev0: "IDLE", Script: []int{oTLost}},
+		// EXIT rejected by a directly controlled device that is not where the executor believes (gRPC status),
+		{Mode: modeDirect, Strict: true, Evt: "EXIT", Src: "STANDBY", Dst: "DONE", NArgs: 0, Dev0: "RUNNING", Script: []int{oDone}},
+		// FairMQ EXIT from CONFIGURED stuck in DEVICE READY (no O2 image): RESET DEVICE and the roll-back refused
+		{Mode: modeFairMQ, Strict: true, Evt: "EXIT", Src: "CONFIGURED", Dst: "DONE", NArgs: 1, Dev0: "READY",
+			Script: []int{oDone, oRefused, oRefused}},
 	}
 }
 
